@@ -164,7 +164,7 @@ def check_case(case, ctx=None):
         classes.append("vmap:keys")
     # a constraint written as  masked(override) | default  at ONE address: the override wins iff its flag is
     # true, whether the flag is a Python bool, an array, or a tracer under jit / vmap
-    if cpaths:
+    if cpaths and not (kinds & {"switch", "or_else", "mix", "mask"}):  # (the overridden address must be visited whatever else is sampled)
         p0 = cpaths[0]
         name, params = run0.dist_info[p0]
         a_val, b_val = jnp.asarray(gfi.value_for(name, params, 0.31)), jnp.asarray(gfi.value_for(name, params, 0.77))
